@@ -211,13 +211,18 @@ mk('C10', ['BasicProofs'], [lifted('C10_online','BasicProofs','C10_online','onli
    lifted('C10_next_endforward','BasicProofs','C10_next_endforward','after a successful finalisation in the forward loop the next action is EndForward')])
 mk('C11', ['SchedProofs','UsesProofs'], [lifted('C11_uses_never_raises','SchedProofs','uses_never_raises','uses_storage_type never raises, for every StorageType member, in every state'),
    lifted('C11_touch_implies_uses','UsesProofs','touch_implies_uses','if an emitted action writes a checkpoint to RAM / DISK or copies / moves one from or to it, uses_storage_type of that storage is True: every state of the extracted objects of None, SingleMemory, SingleDisk, TwoLevel, Multistage, Mixed (well_built = counts stored in the object are those of its labels / storage is a checkpoint storage); the Revolve family is excluded from well_built (oracle + correspondence only)')])
-mk('C13', ['TLInv'], [C09_runs.split("Theorem C09_twolevel_passes")[0].split("Theorem")[0] + """(* the whole TwoLevel run on the extracted model *)
+mk('C13', ['TLInv','TLSweep','Online'], [
+   lifted('C13_sweep_pattern','TLSweep','twolevel_sweep','FIRST CLAUSE, extracted model, every period >= 1, every binomial_snapshots, both storages, both trajectories, every number j of requests before finalisation: the observations are exactly Forward(i P, (i+1) P, write_ics, DISK) with n = (i+1) P, r = 0, max_n unknown, not exhausted, for i = 0 .. j-1'),
+   """(* the whole TwoLevel run on the extracted model *)
 Theorem C13_twolevel_run : forall (N P bs : Z) (bst : storage) (tj : traj), 1 <= N -> 1 <= P -> 0 <= bs -> bst = RAM \\/ bst = DISK -> forall k : nat,
   exists o0 m ls, run_case (PTwo P bs bst tj) (ptl N P bs bst) (repeat Next (Z.to_nat (TLBridge.Q N P)) ++ [Fin N] ++ repeat Next (S k)) = Ok (o0, m, ls) /\\ mon_ok m /\\ no_raise ls.
 Proof. exact twolevel_run. Qed.
 Print Assumptions C13_twolevel_run.
 
-""", lifted('C13_block_total_partial','TLInv','block_total','PARTIAL: per-block forward total on the TwoLevel machine of TLInv.v (= T (L, b+1) with T the work of the binomial recursion); not yet restated on the extracted model')])
+""",
+   lifted('C13_pass_totals','TLBridge','twolevel_totals','SECOND CLAUSE, totals on the extracted model: whenever the generator stands between adjoint passes (head of its `while True`: after EndForward / each EndReverse) the reference executor has carried out N + passes * W forward steps, W = TLBridge.W = the sum over the period blocks of T(block length, binomial_snapshots + 1) with T = Inst.TC, the work of the binomial recursion (= the Griewank-Walther optimum by C05_chain); every N (last block partial or full), both storages, both trajectories, all passes'),
+   lifted('C13_block_total','TLInv','block_total','per block, on the TwoLevel machine of TLInv.v that the extracted machine is proved to follow (TLBridge.resume_agrees): when a block has been reversed completely, exactly T(L, b+1) forward steps were spent on it'),
+   lifted('C13_storage_of_extra_checkpoints_partial','TLBridge','tl_exec_agrees','PARTIAL: that extra checkpoints go only to the binomial storage is contained in the executor bridge (every accepted checkpointing Forward inside a block names bst) and in the budgets of the run theorem (0 units in the other storage), but is not stated as a separate theorem')])
 mk('C14', ['TopK','AllocProofs','SplitProofs'], [lifted('C14_labels_only','SplitProofs','C14_labels_only','first clause: two Multistage configurations with the same max_n, trajectory and number of labels produce the same stream up to the storage named in checkpoint actions (erase_out forgets RAM/DISK), from every state and for every number of requests'),
    lifted('C14_construct_labels','AllocProofs','construct_labels','the labels of a constructed Multistage schedule: all RAM or DISK, min(ram+disk, N-1) of them, at most min(ram, N-1) RAM and at most min(disk, N-1) DISK'),
    lifted('C14_alloc_labels_facts','AllocProofs','alloc_labels_facts','exactly min(ram, #positions) positions are labelled RAM'),
